@@ -30,6 +30,7 @@ Local Notation idle := (idle deser decompress lim e0 dir0 tr0).
 Local Notation poll_next := (poll_next deser decompress).
 Local Notation pull := (pull msg deser decompress).
 Local Notation collect := (collect msg deser decompress).
+Local Notation collect_n := (collect_n msg deser decompress).
 
 Lemma pull_S k evs g d :
   pull (S k) evs g d =
@@ -90,6 +91,35 @@ Proof.
     cbn [plus]. rewrite collect_S, P, C. destruct (collect k term g d0). reflexivity.
 Qed.
 
+(* a consumer that asks for j messages only gets the first j and never looks further *)
+Lemma collect_n_S k j evs g d :
+  collect_n (S k) (S j) evs g d =
+  let '(r, d', evs', g') := poll_next evs g d in
+  match r with
+  | Pending => collect_n k (S j) evs' g' d'
+  | Item (IOk m) => let '(ms, e) := collect_n k j evs' g' d' in (m :: ms, e)
+  | Item (IErr st) => ([], CErr st d' evs' g')
+  | Done => ([], CEnd d' evs' g')
+  | Panic => ([], CPanic)
+  end.
+Proof. reflexivity. Qed.
+
+Lemma collect_n_through term : forall n evs g d fs ms j fuel,
+  (length evs + j <= n)%nat -> (j <= length ms)%nat -> (n < fuel)%nat ->
+  J d evs fs ms -> only_dp evs ->
+  collect_n fuel j (evs ++ term) g d = (firstn j ms, CUnread).
+Proof.
+  induction n as [|n IH]; intros evs g d fs ms j fuel Hn Hj Hf Jd DP;
+    (destruct j as [|j]; [destruct fuel; reflexivity|]); [lia|].
+  destruct fuel as [|k]; [lia|].
+  destruct (step_through deser decompress lim e0 dir0 tr0 term evs g d fs ms Jd DP)
+    as [d' evs1 P J' D' Ln|f m fs' ms' d' evs1 -> -> P J' D' Ln|d0 d1 -> -> Id P];
+    [| |cbn [length] in Hj; lia].
+  - rewrite collect_n_S, P. apply (IH evs1 g d' fs ms (S j) k); auto; lia.
+  - rewrite collect_n_S, P. cbn [length] in Hj.
+    rewrite (IH evs1 g d' fs' ms' j k); auto; try lia.
+Qed.
+
 (* ---- what follows the DATA, read by collect ---- *)
 Lemma collect_end d0 d1 g k : idle d0 d1 -> resp_ok dir0 tr0 ->
   collect (S k) [] g d0 = ([], CEnd d1 [] (end_poll g)).
@@ -97,19 +127,21 @@ Proof.
   intros Id RO. rewrite collect_S, (idle_end deser decompress lim e0 dir0 tr0 d0 d1 g Id RO). reflexivity.
 Qed.
 
-Lemma collect_trailers_ok d0 d1 g k t : idle d0 d1 -> resp_ok dir0 (Some (merged tr0 t)) ->
+Lemma collect_trailers_ok d0 d1 g k t : idle d0 d1 -> extend_may_panic tr0 t = false ->
+  resp_ok dir0 (Some (merged tr0 t)) ->
   collect (S k) [BTrailers t] g d0 = ([], CEnd (with_trailers d1 (Some (merged tr0 t))) [] g).
 Proof.
-  intros Id RO. rewrite collect_S, (idle_trailers_ok deser decompress lim e0 dir0 tr0 d0 d1 g t [] Id RO).
+  intros Id NP RO. rewrite collect_S, (idle_trailers_ok deser decompress lim e0 dir0 tr0 d0 d1 g t [] Id NP RO).
   reflexivity.
 Qed.
 
-Lemma collect_trailers_err d0 d1 g k t http e : idle d0 d1 -> dir0 = Response http ->
+Lemma collect_trailers_err d0 d1 g k t http e : idle d0 d1 -> extend_may_panic tr0 t = false ->
+  dir0 = Response http ->
   infer_grpc_status (Some (merged tr0 t)) http = inr (Some e) ->
   exists d', collect (S k) [BTrailers t] g d0 = ([], CErr e d' [] g).
 Proof.
-  intros Id Dr Inf.
-  destruct (idle_trailers_err deser decompress lim e0 dir0 tr0 d0 d1 g t [] http e Id Dr Inf) as (d' & P & _).
+  intros Id NP Dr Inf.
+  destruct (idle_trailers_err deser decompress lim e0 dir0 tr0 d0 d1 g t [] http e Id NP Dr Inf) as (d' & P & _).
   exists d'. rewrite collect_S, P. reflexivity.
 Qed.
 End Pulling.
@@ -210,18 +242,31 @@ Qed.
    3. heads
    ------------------------------------------------------------------------------------------ *)
 (* no grpc-encoding header: the body is read as identity *)
-Lemma recv_plain headers :
-  hm_get_all headers hdr_grpc_encoding = [] -> recv_encoding headers = Negotiate.RecvOk None.
+Lemma recv_plain (s : side) headers :
+  hm_get_all headers hdr_grpc_encoding = [] -> recv_encoding s headers = Negotiate.RecvOk None.
 Proof.
   intros H. unfold recv_encoding, Negotiate.from_encoding_header, hm_get. now rewrite H.
 Qed.
 
+(* the request headers of a client without compression *)
+Definition plain_request_headers (md : hm) : hm := Metadata.client_request_headers None None md.
+
+Lemma request_headers_plain (cl : side) md :
+  plain cl -> request_headers cl md = Some (plain_request_headers md).
+Proof. intros (S & A & _). unfold request_headers. rewrite S, A. reflexivity. Qed.
+
+Lemma response_encoding_plain (sv : side) qh : plain sv -> response_encoding sv qh = None.
+Proof. intros (_ & _ & E). unfold response_encoding. rewrite E. reflexivity. Qed.
+
+Lemma cfg_plain (s : side) : plain s -> cfg_with s (send_enc s) = cfg_of s.
+Proof. intros (S & _). now rewrite S. Qed.
+
 Lemma request_headers_encoding md :
-  hm_get_all (request_headers md) hdr_grpc_encoding = hm_get_all md hdr_grpc_encoding.
-Proof. unfold request_headers. rewrite Metadata.client_wire. reflexivity. Qed.
+  hm_get_all (plain_request_headers md) hdr_grpc_encoding = hm_get_all md hdr_grpc_encoding.
+Proof. unfold plain_request_headers. rewrite Metadata.client_wire. reflexivity. Qed.
 
 Lemma request_headers_user md k :
-  Metadata.is_reserved k = false -> hm_get_all (request_headers md) k = hm_get_all md k.
+  Metadata.is_reserved k = false -> hm_get_all (plain_request_headers md) k = hm_get_all md k.
 Proof.
   intros Hk. exact (Metadata.client_roundtrip None None md k Hk (or_introl eq_refl) (or_introl eq_refl)).
 Qed.
@@ -261,7 +306,7 @@ Variable ser : msg -> option (list N).
 Variable deser : list N -> option msg.
 Variable compress : encoding -> list N -> list N.
 Variable decompress : encoding -> list N -> option (list N).
-(* the assumed law of the message codec; the compressors are never called (comp = None) *)
+(* the assumed law of the message codec; with [plain] sides the compressors are never called *)
 Hypothesis deser_ser : forall m p, ser m = Some p -> deser p = Some m.
 
 Local Notation encodes := (Encoder.encodes ser compress).
@@ -272,6 +317,7 @@ Local Notation collect := (collect msg deser decompress).
 Local Notation server_receive := (server_receive msg deser decompress).
 Local Notation client_call := (client_call msg deser decompress).
 Local Notation handler_response := (handler_response msg ser compress).
+Local Notation request_frames := (request_frames msg ser compress).
 
 Definition plain_pair (p : list N) : N * list N := (0, p).
 
@@ -350,19 +396,21 @@ Qed.
 (* =============================== the handler's view =============================== *)
 (* a unary request (shapes Unary, ServerStreaming): metadata md, message m *)
 Theorem request_unary (cl sv : side) (sh : shape) (md : hm) (m : msg) (p : list N)
-        (script : list bev) (fuel : nat) :
-  req_streaming sh = false ->
+        (script : list bev) (reads : option nat) (fuel : nat) :
+  plain cl -> req_streaming sh = false ->
   encodes (cfg_of cl) m p -> nlen p <= dec_limit (max_dec sv) ->
   hm_get_all md hdr_grpc_encoding = [] ->
-  carries (request_frames msg ser compress cl [Encoder.SItem (Encoder.IOk m)]) script ->
+  carries (request_frames cl [Encoder.SItem (Encoder.IOk m)]) script ->
   (length script + 2 <= fuel)%nat ->
-  exists md', server_receive sv sh (request_headers md) script fuel = SeenUnary md' m /\
+  exists qh md', request_headers cl md = Some qh /\
+    server_receive sv sh qh script reads fuel = SeenUnary md' m /\
     forall k, Metadata.is_reserved k = false -> hm_get_all md' k = hm_get_all md k.
 Proof.
-  intros Hsh He Hl Hmd (evs & DP & DE & ->) Hf.
-  exists (request_headers md). split; [|apply request_headers_user].
+  intros PL Hsh He Hl Hmd (evs & DP & DE & ->) Hf.
+  exists (plain_request_headers md), (plain_request_headers md).
+  split; [now apply request_headers_plain|]. split; [|apply request_headers_user].
   unfold Call.server_receive. rewrite recv_plain by (now rewrite request_headers_encoding). rewrite Hsh.
-  unfold request_frames in *.
+  unfold Call.request_frames in *. rewrite (cfg_plain cl PL) in *.
   destruct (ok_frames (cfg_of cl) Encoder.Client [Encoder.SItem (Encoder.IOk m)] 0 [m] [p] eq_refl) as [CC NDF].
   { constructor; [exact He|constructor]. }
   rewrite NDF in *. rewrite CC in DE. cbn [Encoder.end_frames map] in *.
@@ -373,9 +421,9 @@ Proof.
   cbn [map] in J0.
   destruct (pull_first msg deser decompress (dec_limit (max_dec sv)) None Request None []
               (length evs) evs (mkB 0) _ _ _ _ _ (le_n _) J0 DP (fuel - S (length evs))%nat)
-    as (d' & evs1 & PL & J' & D' & L').
-  replace (S (length evs) + (fuel - S (length evs)))%nat with fuel in PL by lia.
-  rewrite PL.
+    as (d' & evs1 & PLL & J' & D' & L').
+  replace (S (length evs) + (fuel - S (length evs)))%nat with fuel in PLL by lia.
+  rewrite PLL.
   rewrite (trailers_after (dec_limit (max_dec sv)) Request [] d' evs1 (mkB 0) fuel J' D'); [reflexivity|lia|].
   intros d0 d1 k Id. eexists _, _, _. split.
   - apply (collect_end msg deser decompress _ _ _ _ d0 d1 _ k Id). exact I.
@@ -383,22 +431,24 @@ Proof.
 Qed.
 
 (* a streaming request (shapes ClientStreaming, Bidi): metadata md, messages ms under any
-   schedule of the caller's stream *)
+   schedule of the caller's stream; the handler reads to the end *)
 Theorem request_stream (cl sv : side) (sh : shape) (md : hm) (src : list (Encoder.sevent msg))
         (ms : list msg) (ps : list (list N)) (script : list bev) (fuel : nat) :
-  req_streaming sh = true ->
+  plain cl -> req_streaming sh = true ->
   Encoder.items_of src = map Encoder.IOk ms ->
   Forall2 (encodes (cfg_of cl)) ms ps -> Forall (fun p => nlen p <= dec_limit (max_dec sv)) ps ->
   hm_get_all md hdr_grpc_encoding = [] ->
-  carries (request_frames msg ser compress cl src) script ->
+  carries (request_frames cl src) script ->
   (length script + length ms + 2 <= fuel)%nat ->
-  exists md', server_receive sv sh (request_headers md) script fuel = SeenStream md' ms EndOk /\
+  exists qh md', request_headers cl md = Some qh /\
+    server_receive sv sh qh script None fuel = SeenStream md' ms EndOk /\
     forall k, Metadata.is_reserved k = false -> hm_get_all md' k = hm_get_all md k.
 Proof.
-  intros Hsh Hi He Hl Hmd (evs & DP & DE & ->) Hf.
-  exists (request_headers md). split; [|apply request_headers_user].
+  intros PL Hsh Hi He Hl Hmd (evs & DP & DE & ->) Hf.
+  exists (plain_request_headers md), (plain_request_headers md).
+  split; [now apply request_headers_plain|]. split; [|apply request_headers_user].
   unfold Call.server_receive. rewrite recv_plain by (now rewrite request_headers_encoding). rewrite Hsh.
-  unfold request_frames in *.
+  unfold Call.request_frames in *. rewrite (cfg_plain cl PL) in *.
   destruct (ok_frames (cfg_of cl) Encoder.Client src 0 ms ps Hi He) as [CC NDF].
   rewrite NDF in *. rewrite CC in DE. cbn [Encoder.end_frames map] in *.
   rewrite app_length in Hf. cbn [length] in Hf.
@@ -409,20 +459,48 @@ Proof.
   rewrite (collect_end msg deser decompress _ _ _ _ d0 d1 _ _ Id I). now rewrite app_nil_r.
 Qed.
 
+(* ... and a handler that calls message() only j times before it answers (j at most the
+   number of messages) is given the first j messages, whatever the rest of the body does *)
+Theorem request_stream_partial (cl sv : side) (sh : shape) (md : hm) (src : list (Encoder.sevent msg))
+        (ms : list msg) (ps : list (list N)) (script : list bev) (j fuel : nat) :
+  plain cl -> req_streaming sh = true ->
+  Encoder.items_of src = map Encoder.IOk ms ->
+  Forall2 (encodes (cfg_of cl)) ms ps -> Forall (fun p => nlen p <= dec_limit (max_dec sv)) ps ->
+  hm_get_all md hdr_grpc_encoding = [] ->
+  carries (request_frames cl src) script ->
+  (j <= length ms)%nat -> (length script + j + 1 <= fuel)%nat ->
+  exists qh md', request_headers cl md = Some qh /\
+    server_receive sv sh qh script (Some j) fuel = SeenStream md' (firstn j ms) EndUnread /\
+    forall k, Metadata.is_reserved k = false -> hm_get_all md' k = hm_get_all md k.
+Proof.
+  intros PL Hsh Hi He Hl Hmd (evs & DP & DE & ->) Hj Hf.
+  exists (plain_request_headers md), (plain_request_headers md).
+  split; [now apply request_headers_plain|]. split; [|apply request_headers_user].
+  unfold Call.server_receive. rewrite recv_plain by (now rewrite request_headers_encoding). rewrite Hsh.
+  unfold Call.request_frames in *. rewrite (cfg_plain cl PL) in *.
+  destruct (ok_frames (cfg_of cl) Encoder.Client src 0 ms ps Hi He) as [CC NDF].
+  rewrite NDF in *. rewrite CC in DE. cbn [Encoder.end_frames map] in *.
+  rewrite app_length in Hf. cbn [length] in Hf.
+  pose proof (J_plain Request (max_dec sv) cl ms ps evs He Hl DE) as J0.
+  rewrite (collect_n_through msg deser decompress (dec_limit (max_dec sv)) None Request None []
+             (length evs + j) evs (mkB 0) (dec_new Request None (max_dec sv))
+             (map plain_pair ps) ms j fuel); auto; lia.
+Qed.
+
 (* =============================== the caller's view =============================== *)
 (* the handler of a stream-response shape returned Ok(md, stream); the stream's items are, under
    any schedule, messages ms and then either the end (fin = None) or an item that ends the call
    with status st (fin = Some st: an Err(st) item, or a message that cannot be sent) *)
-Theorem response_stream (cl sv : side) (sh : shape) (md : hm) (src : list (Encoder.sevent msg))
-        (ms : list msg) (ps : list (list N)) (fin : option status) (script : list bev) (fuel : nat) :
-  resp_streaming sh = true ->
+Theorem response_stream (cl sv : side) (sh : shape) (qh md : hm) (src : list (Encoder.sevent msg))
+        (ms : list msg) (ps : list (list N)) (fin : option status) (fuel : nat) :
+  plain sv -> resp_streaming sh = true ->
   outcome (cfg_of sv) (Encoder.items_of src) ms ps fin ->
   Forall (fun p => nlen p <= dec_limit (max_dec cl)) ps ->
   hm_get_all md hdr_grpc_encoding = [] ->
   (forall st, fin = Some st ->
      well_formed st /\ utf8_valid (st_msg st) = true /\
      hm_get_all (st_md st) hdr_grpc_status_details = [] /\ st_code st <> Code_Ok) ->
-  exists w, handler_response sv (HStream (inl (md, src))) = Some w /\
+  exists w, handler_response sv qh (HStream (inl (md, src))) = Some w /\
     forall script, carries (wr_frames w) script -> (length script + length ms + 2 <= fuel)%nat ->
     exists md' e,
       client_call cl sh (wr_http w) (wr_headers w) script fuel = CRStream md' ms e /\
@@ -432,8 +510,11 @@ Theorem response_stream (cl sv : side) (sh : shape) (md : hm) (src : list (Encod
       | Some st => exists st', e = EndErr st' /\ same_status st' st
       end.
 Proof.
-  intros Hsh O Hl Hmd Hfin. eexists. split; [reflexivity|]. clear script.
-  intros script (evs & DP & DE & ->) Hf. cbn [wr_frames wr_http wr_headers] in *.
+  intros PL Hsh O Hl Hmd Hfin.
+  unfold Call.handler_response. rewrite (response_encoding_plain sv qh PL).
+  eexists. split; [reflexivity|].
+  intros script (evs & DP & DE & ->) Hf. cbn [wr_frames wr_http wr_headers option_map] in *.
+  fold (cfg_of sv) in *.
   exists (response_headers md). fold (response_headers md).
   unfold Call.client_call, create_response.
   rewrite recv_plain by (now rewrite response_headers_encoding).
@@ -452,7 +533,7 @@ Proof.
     destruct (collect_through msg deser decompress _ None (Response 200) None [BTrailers t] _ evs (mkB 0) _ _ _ (le_n _) J0 DP)
       as (d0 & d1 & j & Lj & Id & C).
     replace fuel with (j + S (fuel - j - 1))%nat by lia. rewrite C.
-    destruct (collect_trailers_err msg deser decompress _ _ _ _ d0 d1 (mkB 0) (fuel - j - 1)%nat t 200 st' Id eq_refl)
+    destruct (collect_trailers_err msg deser decompress _ _ _ _ d0 d1 (mkB 0) (fuel - j - 1)%nat t 200 st' Id eq_refl eq_refl)
       as (d' & CE).
     { unfold merged, infer_grpc_status. rewrite FH.
       replace (st_code st' =? Code_Ok) with false; [reflexivity|].
@@ -468,24 +549,26 @@ Proof.
     destruct (collect_through msg deser decompress _ None (Response 200) None [BTrailers ok_trailers] _ evs (mkB 0) _ _ _ (le_n _) J0 DP)
       as (d0 & d1 & j & Lj & Id & C).
     replace fuel with (j + S (fuel - j - 1))%nat by lia. rewrite C.
-    rewrite (collect_trailers_ok msg deser decompress _ _ _ _ d0 d1 (mkB 0) _ ok_trailers Id); [|exact I].
+    rewrite (collect_trailers_ok msg deser decompress _ _ _ _ d0 d1 (mkB 0) _ ok_trailers Id eq_refl); [|exact I].
     rewrite app_nil_r. eexists. split; [reflexivity|]. split; [apply response_headers_user|reflexivity].
 Qed.
 
 (* the handler of a unary-response shape returned Ok(md, m) *)
-Theorem response_unary (cl sv : side) (sh : shape) (md : hm) (m : msg) (p : list N) (fuel : nat) :
-  resp_streaming sh = false ->
+Theorem response_unary (cl sv : side) (sh : shape) (qh md : hm) (m : msg) (p : list N) (fuel : nat) :
+  plain sv -> resp_streaming sh = false ->
   encodes (cfg_of sv) m p -> nlen p <= dec_limit (max_dec cl) ->
   hm_get_all md hdr_grpc_encoding = [] ->
-  exists w, handler_response sv (HUnary (inl (md, m))) = Some w /\
+  exists w, handler_response sv qh (HUnary (inl (md, m))) = Some w /\
     forall script, carries (wr_frames w) script -> (length script + 3 <= fuel)%nat ->
     exists md',
       client_call cl sh (wr_http w) (wr_headers w) script fuel = CRUnary md' m /\
       forall k, Metadata.is_reserved k = false -> hm_get_all md' k = hm_get_all md k.
 Proof.
-  intros Hsh He Hl Hmd. eexists. split; [reflexivity|].
-  intros script (evs & DP & DE & ->) Hf. cbn [wr_frames wr_http wr_headers] in *.
-  fold (response_headers md).
+  intros PL Hsh He Hl Hmd.
+  unfold Call.handler_response. rewrite (response_encoding_plain sv qh PL).
+  eexists. split; [reflexivity|].
+  intros script (evs & DP & DE & ->) Hf. cbn [wr_frames wr_http wr_headers option_map] in *.
+  fold (cfg_of sv) in *. fold (response_headers md).
   unfold Call.client_call, create_response.
   rewrite recv_plain by (now rewrite response_headers_encoding).
   rewrite response_headers_no_status, Hsh.
@@ -500,26 +583,26 @@ Proof.
   cbn [map] in J0.
   destruct (pull_first msg deser decompress (dec_limit (max_dec cl)) None (Response 200) None [BTrailers ok_trailers]
               (length evs) evs (mkB 0) _ _ _ _ _ (le_n _) J0 DP (fuel - S (length evs))%nat)
-    as (d' & evs1 & PL & J' & D' & L').
-  replace (S (length evs) + (fuel - S (length evs)))%nat with fuel in PL by lia.
-  rewrite PL.
+    as (d' & evs1 & PLL & J' & D' & L').
+  replace (S (length evs) + (fuel - S (length evs)))%nat with fuel in PLL by lia.
+  rewrite PLL.
   rewrite (trailers_after (dec_limit (max_dec cl)) (Response 200) [BTrailers ok_trailers] d' evs1 (mkB 0) fuel J' D'); [|lia|].
   - eexists. split; [reflexivity|]. intros k Hk. rewrite merge_ok_trailers by exact Hk.
     now apply response_headers_user.
   - intros d0 d1 k Id. eexists _, _, _. split.
-    + apply (collect_trailers_ok msg deser decompress _ _ _ _ d0 d1 _ k ok_trailers Id). exact I.
+    + apply (collect_trailers_ok msg deser decompress _ _ _ _ d0 d1 _ k ok_trailers Id eq_refl). exact I.
     + reflexivity.
 Qed.
 
 (* the handler failed before producing a response (any shape): Status::into_http, a
    trailers-only response; the client takes the status from the HEADERS and never reads the body *)
-Theorem early_error (cl sv : side) (sh : shape) (st : status) (h : hscript msg) (fuel : nat) :
+Theorem early_error (cl sv : side) (sh : shape) (qh : hm) (st : status) (h : hscript msg) (fuel : nat) :
   h = HUnary (inr st) \/ h = HStream (inr st) ->
   well_formed st -> utf8_valid (st_msg st) = true ->
   hm_get_all (st_md st) hdr_grpc_status_details = [] ->
   hm_get_all (st_md st) hdr_grpc_encoding = [] ->
   st_code st <> Code_Ok ->
-  exists w, handler_response sv h = Some w /\ wr_frames w = [] /\
+  exists w, handler_response sv qh h = Some w /\ wr_frames w = [] /\
     forall script, exists st',
       client_call cl sh (wr_http w) (wr_headers w) script fuel = CRErr st' /\
       st_code st' = st_code st /\ st_msg st' = st_msg st /\ st_details st' = st_details st /\
@@ -528,7 +611,7 @@ Proof.
   intros Hh WF U8 ND NE NOk.
   destruct (status_read_back st Metadata.ct_only WF U8 ND eq_refl eq_refl)
     as (hd & st' & AH & FH & C1 & C2 & C3 & C4 & OT).
-  assert (HR : handler_response sv h = Some (mkWR 200 hd [])).
+  assert (HR : handler_response sv qh h = Some (mkWR 200 hd [])).
   { assert (SR : status_response st = Some (mkWR 200 hd [])).
     { unfold status_response, Metadata.status_into_http_headers. fold Metadata.ct_only. now rewrite AH. }
     destruct Hh as [-> | ->]; exact SR. }
@@ -555,14 +638,94 @@ Proof.
 Qed.
 
 (* the server answers a request it accepted with what the handler produced *)
-Lemma server_call_accepts (sv : side) sh headers script (h : hscript msg) fuel :
-  (exists md m, server_receive sv sh headers script fuel = SeenUnary md m) \/
-  (exists md ms e, server_receive sv sh headers script fuel = SeenStream md ms e) ->
-  snd (server_call msg ser deser compress decompress sv sh headers script h fuel) = handler_response sv h.
+Lemma server_call_accepts (sv : side) sh headers script reads (h : hscript msg) fuel :
+  (exists md m, server_receive sv sh headers script reads fuel = SeenUnary md m) \/
+  (exists md ms e, server_receive sv sh headers script reads fuel = SeenStream md ms e) ->
+  snd (server_call msg ser deser compress decompress sv sh headers script reads h fuel) =
+  handler_response sv headers h.
 Proof.
   unfold server_call. intros [(md & m & ->)|(md & ms & e & ->)]; reflexivity.
 Qed.
+
+(* =============================== the configured limits reach the streams (C06) ============ *)
+(* the decoder a server / a client reads a body with has the configured receiving limit *)
+Lemma stream_limits (cl sv : side) (e : option encoding) http :
+  limit_of (dec_new Request e (max_dec sv)) = dec_limit (max_dec sv) /\
+  limit_of (dec_new (Response http) e (max_dec cl)) = dec_limit (max_dec cl) /\
+  Encoder.limit_of (cfg_with cl (send_enc cl)) =
+    match max_enc cl with Some l => l | None => Encoder.DEFAULT_MAX_SEND_MESSAGE_SIZE end /\
+  forall chosen, Encoder.limit_of (cfg_with sv chosen) =
+    match max_enc sv with Some l => l | None => Encoder.DEFAULT_MAX_SEND_MESSAGE_SIZE end.
+Proof. repeat split. Qed.
+
+(* a request message whose on-the-wire payload exceeds max_encoding_message_size of the CLIENT
+   is not sent: the request body carries no DATA and fails with OUT_OF_RANGE *)
+Theorem request_over_enc_limit (cl : side) (m : msg) (p : list N) (rest : list (Encoder.item msg))
+        (src : list (Encoder.sevent msg)) :
+  Encoder.items_of src = Encoder.IOk m :: rest ->
+  Encoder.payload_of ser compress (cfg_with cl (send_enc cl)) m = Some p ->
+  match max_enc cl with Some l => l | None => Encoder.DEFAULT_MAX_SEND_MESSAGE_SIZE end < nlen p ->
+  concat (Encoder.datas_of (request_frames cl src)) = [] /\
+  non_data (request_frames cl src) =
+    [Encoder.FErr (Encoder.st_too_large (nlen p)
+       (match max_enc cl with Some l => l | None => Encoder.DEFAULT_MAX_SEND_MESSAGE_SIZE end))].
+Proof.
+  intros Hi P L. unfold Call.request_frames.
+  apply (err_frames (cfg_with cl (send_enc cl)) Encoder.Client src 0 [] []).
+  exists (Encoder.IOk m :: rest). split; [exact Hi|]. split; [constructor|].
+  exists (Encoder.IOk m), rest. split; [reflexivity|]. right. exists p. split; [exact P|]. left. split; [exact L|reflexivity].
+Qed.
 End CallProofs.
+
+Section LimitProofs.
+Variable msg : Type.
+Variable deser : list N -> option msg.
+Variable decompress : encoding -> list N -> option (list N).
+Local Notation server_receive := (server_receive msg deser decompress).
+Local Notation client_call := (client_call msg deser decompress).
+
+(* a request whose first chunk holds a prefix declaring more than max_decoding_message_size of
+   the SERVER is refused with OUT_OF_RANGE: the handler of a unary-request shape is not called,
+   the one of a streaming-request shape gets that error from its stream *)
+Theorem request_over_limit (sv : side) (sh : shape) (headers : hm) (a b c x : N) (more : list N)
+        (rest : list bev) (fuel : nat) :
+  hm_get_all headers hdr_grpc_encoding = [] ->
+  dec_limit (max_dec sv) < BE32.un_be32 a b c x -> (1 <= fuel)%nat ->
+  server_receive sv sh headers (BData (0 :: a :: b :: c :: x :: more) :: rest) None fuel =
+  if req_streaming sh then SeenStream headers [] (EndErr st_too_large) else SeenRejected st_too_large.
+Proof.
+  intros Hh L Hf. unfold Call.server_receive. rewrite (recv_plain sv headers Hh).
+  destruct (dec_limit_poll deser decompress (dec_new Request None (max_dec sv)) (mkB 0)
+              (0 :: a :: b :: c :: x :: more) rest 0 a b c x more eq_refl)
+    as (d' & P & _); [cbn; lia|reflexivity|left; reflexivity|exact L|].
+  destruct fuel as [|k]; [lia|].
+  destruct (req_streaming sh).
+  - cbn [Call.collect]. unfold dec_poll. rewrite P. reflexivity.
+  - cbn [Call.pull]. unfold dec_poll. rewrite P. reflexivity.
+Qed.
+
+(* ... and likewise a response body, with max_decoding_message_size of the CLIENT *)
+Theorem response_over_limit (cl : side) (sh : shape) (md : hm) (a b c x : N) (more : list N)
+        (rest : list bev) (fuel : nat) :
+  hm_get_all md hdr_grpc_encoding = [] ->
+  dec_limit (max_dec cl) < BE32.un_be32 a b c x -> (1 <= fuel)%nat ->
+  client_call cl sh 200 (response_headers md) (BData (0 :: a :: b :: c :: x :: more) :: rest) fuel =
+  if resp_streaming sh then CRStream (response_headers md) [] (EndErr st_too_large)
+  else CRErr (with_md st_too_large (Metadata.merge [] (response_headers md))).
+Proof.
+  intros Hh L Hf. unfold Call.client_call, create_response.
+  rewrite recv_plain by (now rewrite response_headers_encoding).
+  rewrite response_headers_no_status.
+  destruct (dec_limit_poll deser decompress (dec_new (Response 200) None (max_dec cl)) (mkB 0)
+              (0 :: a :: b :: c :: x :: more) rest 0 a b c x more eq_refl)
+    as (d' & P & _); [cbn; lia|reflexivity|left; reflexivity|exact L|].
+  destruct fuel as [|k]; [lia|].
+  destruct (resp_streaming sh).
+  - cbn [Call.collect]. unfold dec_poll. rewrite P. reflexivity.
+  - cbn [Call.pull]. unfold dec_poll. rewrite P. reflexivity.
+Qed.
+
+End LimitProofs.
 
 (* the unary client API merges the initial metadata INTO an error it meets at the first
    message (status.metadata_mut().merge(parts)): per name, the values of the response headers
@@ -581,4 +744,60 @@ Theorem unary_error_merge (msg : Type) (deser : list N -> option msg)
 Proof.
   intros Hsh HC HP. unfold client_call. rewrite HC, Hsh, HP.
   eexists. split; [reflexivity|]. repeat split. intros k. cbn [st_md with_md]. apply get_all_extend.
+Qed.
+
+(* ------------------------------------------------------------------------------------------
+   F-C06b (known finding): the client role over a real HTTP/2 connection
+   ------------------------------------------------------------------------------------------ *)
+(* the class: the request body of the call fails (for C06: a message over the client's
+   max_encoding_message_size) and the transport is a real connection, which turns the body error
+   into a stream reset ([call_result_h2]) *)
+Definition KnownC06_request_body_fails (tbl : list (list N * list N)) (cl : side)
+           (req : list (option (list N) + status)) : Prop :=
+  body_error (request_frames (list N) ser_id (compress_of tbl) cl (map sev_of req)) <> None.
+
+(* inside the class: whatever the server and the handler do, the caller's call fails with the
+   status derived from the reset - INTERNAL - and not with the status the body failed with *)
+Lemma client_reset_class tbl cl sv sh md req reads h fuel qh :
+  request_headers cl md = Some qh ->
+  KnownC06_request_body_fails tbl cl req ->
+  fst (call_result_h2 tbl cl sv sh md req reads h fuel) = Some (CRErr st_stream_reset) /\
+  st_code st_stream_reset = Code_Internal /\
+  snd (call_result_h2 tbl cl sv sh md req reads h fuel) =
+    server_receive (list N) deser_id (decompress_of tbl) sv sh qh [BErr st_stream_reset]
+                   (option_map N.to_nat reads) (N.to_nat fuel).
+Proof.
+  intros Hq K. unfold KnownC06_request_body_fails in K. unfold call_result_h2. rewrite Hq.
+  unfold real_request_script.
+  destruct (body_error _) as [st|]; [|congruence].
+  unfold server_call. cbn [fst snd]. repeat split.
+Qed.
+
+(* outside the class the real connection is the transport of the theorems (no re-cutting, no
+   Pending: the kinds h2 do not control the schedule) *)
+Lemma real_transport_outside_class tbl cl sv sh md req reads h fuel :
+  ~ KnownC06_request_body_fails tbl cl req ->
+  call_result_h2 tbl cl sv sh md req reads h fuel =
+  call_result tbl cl sv sh md req [] [] reads h [] [] fuel.
+Proof.
+  intros K. unfold KnownC06_request_body_fails in K. unfold call_result_h2, call_result.
+  destruct (request_headers cl md); [|reflexivity]. unfold real_request_script.
+  destruct (body_error _) as [st|]; [exfalso; apply K; discriminate|]. reflexivity.
+Qed.
+
+(* exists x, Known x /\ ~ P x: max_encoding_message_size(5), a unary call with a 6 byte message.
+   The body fails with OUT_OF_RANGE (as C06 demands of the sender), the caller sees INTERNAL. *)
+Lemma client_reset_refuted :
+  let cl := mk_side (Some 5) None None [] [] in
+  let req := [inl (Some [66; 66; 66; 66; 66; 66])] in
+  KnownC06_request_body_fails [] cl req /\
+  body_error (request_frames (list N) ser_id (compress_of []) cl (map sev_of req)) =
+    Some (Encoder.st_too_large 6 5) /\
+  st_code (Encoder.st_too_large 6 5) = Code_OutOfRange /\
+  call_result_h2 [] cl default_side Unary [] req None (inl ([], [inl (Some [])])) 20 =
+    (Some (CRErr st_stream_reset), SeenRejected st_stream_reset) /\
+  st_code st_stream_reset = Code_Internal /\ Code_Internal <> Code_OutOfRange.
+Proof.
+  cbv zeta. split; [vm_compute; discriminate|]. split; [vm_compute; reflexivity|].
+  split; [reflexivity|]. split; [vm_compute; reflexivity|]. split; [reflexivity|discriminate].
 Qed.
